@@ -1056,7 +1056,9 @@ def rule_W1(repo: Repo) -> RuleResult:
                     full_cmp, counter = c, arr
         if full_cmp is None:
             raise AnalysisError(f"W1: fullness test of {kname} not found")
-        if isinstance(full_cmp.ops[0], ast.GtE):
+        # `counter >= window` means full; `counter < window` means not yet full (the same test, read the other way round)
+        full_sense = True if isinstance(full_cmp.ops[0], ast.GtE) else (False if isinstance(full_cmp.ops[0], ast.Lt) else None)
+        if full_sense is not None:
             res.ok(f, full_cmp, f"{kname}: {norm(full_cmp)}", "the buffer is full once `window` rows of the group were accepted")
         else:
             res.bad(f, full_cmp, f"{kname}: {norm(full_cmp)}",
@@ -1074,16 +1076,17 @@ def rule_W1(repo: Repo) -> RuleResult:
             incs = [st for st in p.stmts if isinstance(st, ast.AugAssign) and isinstance(st.target, ast.Subscript)
                     and base_name(st.target) == counter and isinstance(st.op, ast.Add) and const_int(st.value) == 1]
             decisions = set()
+            sense = (lambda b: b) if full_sense is not False else (lambda b: not b)
             for t, pol in p.conds:
                 if isinstance(t, ast.AST) and (norm(t) == full_txt or (isinstance(t, ast.Name) and t.id in full_names)):
-                    decisions.add(pol)
+                    decisions.add(sense(pol))
                 if isinstance(t, ast.UnaryOp) and isinstance(t.op, ast.Not) and isinstance(t.operand, ast.Name) \
                         and t.operand.id in full_names:
-                    decisions.add(not pol)
+                    decisions.add(sense(not pol))
                 if isinstance(t, ast.BoolOp) and isinstance(t.op, ast.And) and pol is True:
                     for v in t.values:
                         if isinstance(v, ast.Name) and v.id in full_names:
-                            decisions.add(True)
+                            decisions.add(sense(True))
             if len(decisions) > 1:
                 continue            # the flag is decided both ways: not a feasible path (the counter is not written in between)
             is_full = next(iter(decisions)) if decisions else None
